@@ -393,7 +393,9 @@ func TruncFunc(spec1, spec2 Spec) func(string) string {
 	}
 
 	// Both multi-field with same number of fields
-	if len(spec1.Fields) == len(spec2.Fields) {
+	// (but when spec1 has Fields2, a key whose fields are all empty
+	// is followed by the Fields2 values, which must be removed)
+	if len(spec1.Fields) == len(spec2.Fields) && len(spec1.Fields2) == 0 {
 		return func(s string) string { return s }
 	}
 
